@@ -224,7 +224,7 @@ where
 
         if (dx < T::epsilon())
             || (T::abs(dx / x) < T::sqrt(T::epsilon()))
-            || (T::abs(dfdx) < T::epsilon())
+            || (T::abs(dfdx * x) < T::epsilon())
         {
             break;
         }
